@@ -10,15 +10,37 @@ Bounded run-time contract check on the real writers (odml.save, ODMLWriter.write
                             no file created, existing file keeps its bytes
   run_warnings_only         documents with warnings only           -> written, warnings.warn fires
 
-All files live under /verif/.work/c07/ and are removed again.
+"Whenever a save raises, FOR WHATEVER REASON": the environment of the call, not only the document, can make a
+legitimate step of a save raise.  Four more runs vary that environment; the oracle is the same everywhere
+(the call raised -> the whole scratch tree is byte-identical to before; the call returned -> a file that was
+created or changed holds the document; a document with a validation error never returns):
+  run_warning_filters       the process' warning handling {record, default, ignore, error, error for UserWarning
+                            only, a showwarning hook that raises} x documents {clean, warnings only, validation
+                            error, error+warning, serialisation fault, warning+fault} x every format x every writer
+  run_target_paths          the target: every spelling of a path (absolute, relative, ./, via .., //, dotted
+                            directory, no extension, non-ASCII, pathlib.Path, bytes) x {absent, present} and
+                            unwritable targets (directory missing, parent is a file, target is a directory,
+                            trailing slash, name too long, NUL, empty, symlinks incl. dangling and looping,
+                            read-only file/directory where the platform enforces it)
+  run_writer_options        every option of the writers: local_style / custom_template values (a stylesheet that
+                            does not exist, not XSL, text UTF-8 cannot hold, non-str), rdf_format values, backend
+                            spellings, unknown keyword arguments
+  run_process_locale        a child process whose locale encoding is ASCII (LC_ALL=C, UTF-8 mode off): documents
+                            with non-ASCII text x every format x every writer
+
+All files live under /verif/.work/c07-<pid>/ and are removed again.
 """
 from __future__ import annotations
 
 import contextlib
 import io
+import json
 import os
+import pathlib
 import random
 import shutil
+import subprocess
+import sys
 import warnings
 
 from rcc import harness as h
@@ -81,11 +103,41 @@ def _prepare(target, ext):
     return path, _listing()
 
 
-def _save(entry, doc, path, backend, kwargs):
+WARNING_FILTERS = ['always', 'default', 'ignore', 'error', 'error-UserWarning-only', 'showwarning-hook-raises']
+
+
+def _raising_hook(*_args, **_kwargs):
+    raise RuntimeError('the installed warnings.showwarning hook failed')
+
+
+@contextlib.contextmanager
+def _warning_env(wfilter):
+    """The way the calling process handles warnings (python -W ..., warnings.simplefilter, pytest filterwarnings,
+    logging.captureWarnings-like hooks). Filters and hook are restored on exit."""
+    with warnings.catch_warnings(record=(wfilter == 'always')) as rec:
+        if wfilter == 'always':
+            warnings.simplefilter('always')
+        elif wfilter == 'default':
+            warnings.simplefilter('default')
+        elif wfilter == 'ignore':
+            warnings.simplefilter('ignore')
+        elif wfilter == 'error':
+            warnings.simplefilter('error')
+        elif wfilter == 'error-UserWarning-only':
+            warnings.simplefilter('ignore')
+            warnings.filterwarnings('error', category=UserWarning)
+        elif wfilter == 'showwarning-hook-raises':
+            warnings.simplefilter('always')
+            warnings.showwarning = _raising_hook
+        else:
+            raise AssertionError(wfilter)
+        yield rec if rec is not None else []
+
+
+def _save(entry, doc, path, backend, kwargs, wfilter='always'):
     """Run one save through the real code. -> (kind, value, recorded warnings)"""
     buf = io.StringIO()
-    with warnings.catch_warnings(record=True) as rec:
-        warnings.simplefilter('always')
+    with _warning_env(wfilter) as rec:
         with contextlib.redirect_stdout(buf), contextlib.redirect_stderr(buf):
             try:
                 if entry == 'odml.save':
@@ -268,7 +320,45 @@ class _Opaque(object):
         return '<opaque>'
 
 
+class _StrRaises(object):
+    """An attribute object whose text form cannot be taken (a lazy value whose source is gone)."""
+    def __str__(self):
+        raise RuntimeError('no text form')
+
+
+class _ReprRaises(object):
+    def __repr__(self):
+        raise RuntimeError('no repr')
+
+
+class _StrGivesBadText(object):
+    def __str__(self):
+        return 'a\x00b'
+
+
+class _StrSubclassRaises(str):
+    """A real str (every encoder accepts it) whose str() raises."""
+    def __str__(self):
+        raise RuntimeError('no text form')
+
+
+class _IntSubclassRaises(int):
+    def __str__(self):
+        raise RuntimeError('no text form')
+    __repr__ = __str__
+
+
 def _unencodable(kind):
+    if kind == 'str-raises':
+        return _StrRaises()
+    if kind == 'repr-raises':
+        return _ReprRaises()
+    if kind == 'str-gives-NUL-text':
+        return _StrGivesBadText()
+    if kind == 'str-subclass-str-raises':
+        return _StrSubclassRaises('plain')
+    if kind == 'int-subclass-str-raises':
+        return _IntSubclassRaises(7)
     if kind == 'set':
         return {1, 2}
     if kind == 'object':
@@ -285,9 +375,10 @@ def _unencodable(kind):
 BAD_TEXT = [('NUL', 'a\x00b'), ('VT', 'a\x0bb'), ('US', 'a\x1fb'), ('U+FFFE', 'a\ufffeb'), ('lone-surrogate', 'a\ud800b')]
 TEXT_SLOTS = ['property-value', 'property-name', 'section-name', 'section-definition', 'document-author',
               'property-unit']
-OBJ_KINDS = ['set', 'object', 'bytes', 'complex', 'generator']
+OBJ_KINDS = ['set', 'object', 'bytes', 'complex', 'generator',
+             'str-raises', 'repr-raises', 'str-gives-NUL-text', 'str-subclass-str-raises', 'int-subclass-str-raises']
 OBJ_SLOTS = ['document-author', 'document-version', 'section-definition', 'section-reference', 'property-unit',
-             'property-definition']
+             'property-definition', 'property-value']
 
 
 def _small_doc():
@@ -359,7 +450,8 @@ def run_failing_serialisation(tier, seed):
     col = h.Collector(
         'C07.failing_serialisation',
         rule='valid two-section document x fault {none; rdf_format in bogus/""/XML/nquads; text NUL, VT, US, U+FFFE, lone '
-             'surrogate in 6 text slots; set/object/bytes/complex/generator in 6 attribute slots} x formats x '
+             'surrogate in 6 text slots; set/object/bytes/complex/generator and objects whose __str__/__repr__ raises or '
+             'yields NUL text (plain, str subclass, int subclass) in 6 attribute slots and as a Property value} x formats x '
              '{odml.save, ODMLWriter.write_file, XMLWriter.write_file, RDFWriter.write_file} x target {absent, b"OLD"}; '
              'contract checked whenever the save raises; class = (fault kind+label, format, entry, target, raised?)',
         exhaustive=False)
@@ -545,3 +637,664 @@ def run_warnings_only(tier, seed):
     finally:
         _cleanup()
     return col.result()
+
+
+# ---------------------------------------------------------------------------------------------
+# The environment of a save: "whenever a save raises, for whatever reason"
+#
+# Shared oracle of the four runs below (from the statement only):
+#   the call raised    -> nothing under the scratch directory was created, changed or removed
+#   the call returned  -> the document had no validation error (checked writers only) and a file that was
+#                         created or changed by the call holds the document (its Section name is in it)
+# The statement does not say WHERE a writer puts the file when it completes the name (odml.save appends the
+# backend, RDFWriter the format's extension), so any created/changed file below the scratch directory counts.
+# ---------------------------------------------------------------------------------------------
+
+MARK = b'wsec'                                           # name of the Section every document below contains
+
+
+def _clear():
+    """Empty the scratch directory without removing it (it may be the current directory)."""
+    os.makedirs(WORK, exist_ok=True)
+    for name in os.listdir(WORK):
+        p = os.path.join(WORK, name)
+        if os.path.isdir(p) and not os.path.islink(p):
+            for root, dirs, _files in os.walk(p):
+                for d in dirs:
+                    with contextlib.suppress(OSError):
+                        os.chmod(os.path.join(root, d), 0o700)
+            with contextlib.suppress(OSError):
+                os.chmod(p, 0o700)
+            shutil.rmtree(p, ignore_errors=True)
+        else:
+            os.remove(p)
+
+
+def _tree():
+    """Everything below the scratch directory: files with their bytes, directories, symbolic links."""
+    out = {}
+    for root, dirs, files in os.walk(WORK):
+        for d in dirs:
+            p = os.path.join(root, d)
+            rel = os.path.relpath(p, WORK)
+            out[rel + '/'] = b'<link to %s>' % os.fsencode(os.readlink(p)) if os.path.islink(p) else b'<directory>'
+        for f in files:
+            p = os.path.join(root, f)
+            rel = os.path.relpath(p, WORK)
+            if os.path.islink(p):
+                out[rel + ' (link)'] = os.fsencode(os.readlink(p))
+                if not os.path.isfile(p):
+                    continue                                 # dangling or looping link: no content
+            try:
+                with open(p, 'rb') as fh:
+                    out[rel] = fh.read()
+            except OSError as exc:
+                out[rel] = b'<unreadable: %s>' % type(exc).__name__.encode()
+    return out
+
+
+def _holds_document(before, after):
+    return any(MARK in data for name, data in after.items()
+               if not name.endswith('/') and before.get(name) != data)
+
+
+def _old(path):
+    os.makedirs(os.path.dirname(path), exist_ok=True)
+    with open(path, 'wb') as fh:
+        fh.write(OLD)
+
+
+def _readonly_enforced():
+    """Does this platform/user refuse to write a file without write permission? (not for root)"""
+    _clear()
+    p = os.path.join(WORK, 'probe')
+    _old(p)
+    os.chmod(p, 0o444)
+    try:
+        with open(p, 'ab'):
+            return False
+    except OSError:
+        return True
+    finally:
+        os.chmod(p, 0o644)
+        os.remove(p)
+
+
+# --- documents (all contain a Section named 'wsec'; all built through the public API unless noted) ------------
+
+def _env_docs(which='all'):
+    """(document class, label, builder)"""
+    out = [('clean', 'no issue', _clean_doc)]
+    out += [('warnings-only', label, build) for label, build in _warning_docs()]
+
+    def err_type():
+        doc = _clean_doc()
+        odml.Section(name='untyped', type='t', parent=doc).type = None
+        return doc
+
+    def err_dup_id():
+        doc = _clean_doc()
+        sec = list.__getitem__(doc._sections, 0)
+        twin = sec.clone(keep_id=True)
+        twin.name = 'twin'
+        doc.append(twin)
+        return doc
+
+    def err_dup_name():
+        doc = _clean_doc()
+        sec = list.__getitem__(doc._sections, 0)
+        odml.Property(name='other', values=[1], parent=sec)._name = 'wprop'   # forced through the private field
+        return doc
+
+    def err_and_warning():
+        doc = err_type()
+        odml.Section(name='defaulted', parent=doc)                            # type 'n.s.': a warning
+        list.__getitem__(list.__getitem__(doc._sections, 0)._props, 0).val_cardinality = (2, None)
+        return doc
+
+    out += [('validation-error', 'section-type-None', err_type),
+            ('validation-error', 'duplicate-id', err_dup_id),
+            ('validation-error', 'duplicate-sibling-property-name', err_dup_name),
+            ('validation-error', 'section-type-None+warnings', err_and_warning)]
+
+    def with_fault(base, slot, make):
+        def build():
+            doc = base()
+            _put(doc, slot, make())
+            return doc
+        return build
+
+    def warn_base():
+        doc = _clean_doc()
+        odml.Section(name='defaulted', parent=doc)
+        return doc
+
+    faults = [('NUL-in-property-value', 'property-value', lambda: 'a\x00b'),
+              ('set-as-document-author', 'document-author', lambda: {1, 2}),
+              ('str-raises-as-section-definition', 'section-definition', _StrRaises)]
+    out += [('serialisation-fault', label, with_fault(_clean_doc, slot, make)) for label, slot, make in faults]
+    out += [('warning+serialisation-fault', label, with_fault(warn_base, slot, make)) for label, slot, make in faults]
+    if which == 'all':
+        return out
+    keep = {'no issue', 'section-type-n.s.-default', 'string-value-fits-int', 'section-type-None',
+            'NUL-in-property-value', 'set-as-document-author'}
+    return [d for d in out if d[1] in keep and d[0] != 'warning+serialisation-fault']
+
+
+def _independently_invalid(doc):
+    return _really_invalid(doc)
+
+
+QUICK_SKIP = ('string-value-fits-int', 'set-as-document-author')   # documents of _env_docs('few') left to thorough
+
+CHECKED_WRITERS = ('odml.save', 'ODMLWriter.write_file')       # these validate; the two format writers do not
+RDF_NAME_EXT = 'rdf.n3.ttl.nt.trig.jsonld.trix'                 # RDFWriter appends an extension the name lacks
+
+
+def _entries_for(backend, kwargs):
+    entries = list(ENTRIES)
+    if isinstance(backend, str) and backend.upper() == 'XML':
+        entries.append('XMLWriter.write_file')
+    if isinstance(backend, str) and backend.upper() == 'RDF' and 'rdf_format' in kwargs:
+        entries.append('RDFWriter.write_file')
+    return entries
+
+
+def _judge(col, run, env_feature, dclass, entry, backend, kind, val, before, after, witness, strict_exc=True):
+    """Apply the shared oracle to one finished call."""
+    writer = 'ODMLWriter' if entry in ENTRIES else entry.split('.')[0]
+    feature = '%s/%s/%s' % (env_feature, str(backend).upper() if isinstance(backend, str) else
+                            type(backend).__name__, writer)
+    if kind == 'exc':
+        for clause, msg in _fs_violations(before, after):
+            col.fail(check='%s/%s' % (run, clause),
+                     cls={'clause': clause, 'feature': '%s/raised-%s' % (feature, type(val).__name__)},
+                     witness=witness,
+                     detail='save raised %s (%s); %s; contract: whenever a save raises, for whatever reason, no file '
+                            'is created and an existing file keeps its content'
+                            % (type(val).__name__, str(val)[:120].replace('\n', ' '), msg))
+        if strict_exc and dclass == 'validation-error' and entry in CHECKED_WRITERS \
+                and not isinstance(val, ParserException):
+            col.fail(check='%s/raises-ParserException' % run,
+                     cls={'clause': 'raises-ParserException', 'feature': feature + '/' + type(val).__name__},
+                     witness=witness,
+                     detail='save raised %s: %s; contract: a document with a validation error makes save raise '
+                            'ParserException' % (type(val).__name__, str(val)[:160]))
+        return
+    if dclass == 'validation-error' and entry in CHECKED_WRITERS:
+        col.fail(check='%s/raises' % run, cls={'clause': 'raises', 'feature': feature}, witness=witness,
+                 detail='save returned normally for a document with a validation error; contract requires '
+                        'ParserException and no written file')
+        return
+    if not _holds_document(before, after):
+        changed = sorted(n for n in after if before.get(n) != after[n])
+        col.fail(check='%s/file-holds-document' % run, cls={'clause': 'file-holds-document', 'feature': feature},
+                 witness=witness,
+                 detail='save returned normally but no created or changed file below the scratch directory contains '
+                        'the Section name %r (created/changed: %r); contract: a save that does not raise has written '
+                        'the document' % (MARK, changed))
+
+
+def _call_save(entry, doc, path, backend, kwargs, wfilter):
+    kw = dict(kwargs)
+    if entry == 'RDFWriter.write_file':
+        kw = {k: v for k, v in kw.items() if k == 'rdf_format'}
+    if entry == 'XMLWriter.write_file':
+        kw = {k: v for k, v in kw.items() if k in ('local_style', 'custom_template')}
+    return _save(entry, doc, path, backend, kw, wfilter)
+
+
+@contextlib.contextmanager
+def _scratch_as_cwd():
+    here = os.getcwd()
+    shutil.rmtree(WORK, ignore_errors=True)
+    os.makedirs(WORK)
+    os.chdir(WORK)
+    try:
+        with h.quiet():
+            yield
+    finally:
+        os.chdir(here)
+        _clear()
+        _cleanup()
+
+
+def _simple_target(state, entry, ext):
+    """Empty scratch directory, target absent or holding OLD -> (path, tree before)."""
+    _clear()
+    path = os.path.join(WORK, 'target.' + (RDF_NAME_EXT if entry == 'RDFWriter.write_file' else ext))
+    if state == 'present':
+        _old(path)
+    return path, _tree()
+
+
+# ---------------------------------------------------------------------------------------------
+# run_warning_filters
+# ---------------------------------------------------------------------------------------------
+
+def run_warning_filters(tier, seed):
+    col = h.Collector(
+        'C07.warning_filters',
+        rule='warning handling of the process {record all, default, ignore, error (-W error), error for UserWarning '
+             'only, a warnings.showwarning hook that raises} x documents {clean; 10 with warnings only; 4 with a '
+             'validation error (one also with warnings); 3 with a serialisation fault; the same 3 with a warning in '
+             'addition} x {XML, XML+local_style, JSON, YAML, RDF default, RDF x 11 rdf_format} (quick: XML, JSON, YAML, RDF/turtle) x '
+             '{odml.save, ODMLWriter.write_file, XMLWriter.write_file, RDFWriter.write_file} x target {absent, b"OLD"}; '
+             'class = (filter, document class+label, format, entry, target, raised?)',
+        exhaustive=True)
+    basic = [c for c in CONFIGS if c[0] in ('XML', 'JSON', 'YAML', 'RDF/turtle')]
+    cfgs = basic if tier == 'quick' else CONFIGS
+    run = 'C07.warning_filters'
+    with _scratch_as_cwd():
+        for wfilter in WARNING_FILTERS:
+            for dclass, dlabel, build in _env_docs():
+                for label, backend, kwargs, ext in cfgs:
+                    for entry in _entries_for(backend, kwargs):
+                        for target in TARGETS:
+                            doc = build()
+                            if (dclass == 'validation-error') != _independently_invalid(doc):
+                                raise AssertionError('harness bug: %s/%s' % (dclass, dlabel))
+                            path, before = _simple_target(target, entry, ext)
+                            kind, val, _rec = _call_save(entry, doc, path, backend, kwargs, wfilter)
+                            after = _tree()
+                            col.case(cls_key=(wfilter, dclass, dlabel, label, entry, target, kind),
+                                     sample='filter %s, doc %s (%s) -> %s via %s, target %s: %s'
+                                            % (wfilter, dlabel, dclass, label, entry, target,
+                                               'raised ' + type(val).__name__ if kind == 'exc' else 'returned'))
+                            witness = {'warnings': wfilter, 'doc': dlabel, 'doc_class': dclass, 'format': label,
+                                       'kwargs': kwargs, 'entry': entry, 'target': target,
+                                       'outcome': type(val).__name__ if kind == 'exc' else 'returned'}
+                            _judge(col, run, 'warnings:%s/doc:%s' % (wfilter, dclass), dclass, entry, backend, kind, val, before, after,
+                                   witness, strict_exc=wfilter in ('always', 'default', 'ignore'))
+    return col.result()
+
+
+# ---------------------------------------------------------------------------------------------
+# run_target_paths
+# ---------------------------------------------------------------------------------------------
+
+def _target_variants(ext, backend, readonly):
+    """(label, state, setup): setup() builds the pre-state in the emptied scratch directory (which is the current
+    directory) and returns the path argument handed to the writer."""
+    out = []
+    W = WORK
+    plain = 'target.' + ext
+
+    def spelled(label, name, spell, extra_dirs=(), also=()):
+        for state in TARGETS:
+            def setup(name=name, spell=spell, state=state, extra_dirs=extra_dirs, also=also):
+                for d in extra_dirs:
+                    os.makedirs(os.path.join(W, d), exist_ok=True)
+                if state == 'present':
+                    for n in (name,) + tuple(also):
+                        _old(os.path.join(W, n))
+                return spell(name)
+            out.append((label, state, setup))
+
+    spelled('absolute', plain, lambda n: os.path.join(W, n))
+    spelled('relative', plain, lambda n: n)
+    spelled('dot-slash-relative', plain, lambda n: './' + n)
+    spelled('relative-in-subdirectory', os.path.join('sub', plain), lambda n: n, extra_dirs=('sub',))
+    spelled('via-dotdot', plain, lambda n: os.path.join(W, 'sub', '..', n), extra_dirs=('sub',))
+    spelled('double-slash', plain, lambda n: W + '//' + n)
+    spelled('pathlib.Path', plain, lambda n: pathlib.Path(os.path.join(W, n)))
+    spelled('bytes', plain, lambda n: os.fsencode(os.path.join(W, n)))
+    # names: the writers complete a name without extension (odml.save: '.<backend>'), so with state 'present'
+    # the completed names hold earlier data, too
+    completed = tuple('target.' + e for e in sorted({backend.lower(), backend, ext}))
+    spelled('no-extension', 'target', lambda n: os.path.join(W, n), also=completed)
+    spelled('no-extension-relative', 'target', lambda n: n, also=completed)
+    spelled('no-extension-in-dotted-directory', os.path.join('dir.d', 'target'), lambda n: os.path.join(W, n),
+            extra_dirs=('dir.d',), also=tuple(os.path.join('dir.d', c) for c in completed))
+    spelled('trailing-dot', 'target.', lambda n: os.path.join(W, n))
+    spelled('hidden-file-name', '.' + ext, lambda n: os.path.join(W, n))
+    spelled('non-ascii-name-with-space', 'tärget 日本.' + ext, lambda n: os.path.join(W, n))
+    spelled('other-extension', 'target.' + ext + '.bak', lambda n: os.path.join(W, n))
+
+    def unwritable(label, setup):
+        out.append((label, 'unwritable', setup))
+
+    def parent_missing():
+        return os.path.join(W, 'nodir', plain)
+
+    def parent_is_file():
+        _old(os.path.join(W, 'afile'))
+        return os.path.join(W, 'afile', plain)
+
+    def is_empty_dir():
+        os.makedirs(os.path.join(W, plain))
+        return os.path.join(W, plain)
+
+    def is_full_dir():
+        _old(os.path.join(W, plain, 'inner.' + ext))
+        return os.path.join(W, plain)
+
+    def dir_without_extension():
+        _old(os.path.join(W, 'target', 'inner.' + ext))
+        for c in completed:
+            _old(os.path.join(W, c))
+        return os.path.join(W, 'target')
+
+    def trailing_slash():
+        _old(os.path.join(W, plain))
+        return os.path.join(W, plain) + '/'
+
+    def too_long():
+        return os.path.join(W, 'n' * 300 + '.' + ext)
+
+    def nul():
+        _old(os.path.join(W, 'tar'))
+        return os.path.join(W, 'tar\x00get.' + ext)
+
+    def empty():
+        for c in completed:
+            _old(os.path.join(W, c[len('target'):]))         # '.xml', ... : what an appended extension yields
+        return ''
+
+    def link_to_file():
+        _old(os.path.join(W, 'real.' + ext))
+        os.symlink(os.path.join(W, 'real.' + ext), os.path.join(W, plain))
+        return os.path.join(W, plain)
+
+    def link_dangling():
+        os.symlink(os.path.join(W, 'nowhere.' + ext), os.path.join(W, plain))
+        return os.path.join(W, plain)
+
+    def link_loop():
+        os.symlink(os.path.join(W, 'other.' + ext), os.path.join(W, plain))
+        os.symlink(os.path.join(W, plain), os.path.join(W, 'other.' + ext))
+        return os.path.join(W, plain)
+
+    def link_to_dir():
+        _old(os.path.join(W, 'realdir', 'inner.' + ext))
+        os.symlink(os.path.join(W, 'realdir'), os.path.join(W, plain))
+        return os.path.join(W, plain)
+
+    def through_linked_dir():
+        _old(os.path.join(W, 'realdir', plain))
+        os.symlink(os.path.join(W, 'realdir'), os.path.join(W, 'linkdir'))
+        return os.path.join(W, 'linkdir', plain)
+
+    unwritable('parent-directory-missing', parent_missing)
+    unwritable('parent-is-a-file', parent_is_file)
+    unwritable('target-is-an-empty-directory', is_empty_dir)
+    unwritable('target-is-a-directory-with-files', is_full_dir)
+    unwritable('target-without-extension-is-a-directory', dir_without_extension)
+    unwritable('trailing-slash-after-file-name', trailing_slash)
+    unwritable('name-too-long', too_long)
+    unwritable('embedded-NUL', nul)
+    unwritable('empty-string', empty)
+    unwritable('symlink-to-present-file', link_to_file)
+    unwritable('dangling-symlink', link_dangling)
+    unwritable('symlink-loop', link_loop)
+    unwritable('symlink-to-directory', link_to_dir)
+    unwritable('through-symlinked-directory', through_linked_dir)
+    unwritable('not-a-path:None', lambda: None)
+    unwritable('not-a-path:int', lambda: 12345)
+    if readonly:
+        def ro_file():
+            _old(os.path.join(W, plain))
+            os.chmod(os.path.join(W, plain), 0o444)
+            return os.path.join(W, plain)
+
+        def ro_dir_absent():
+            os.makedirs(os.path.join(W, 'ro'))
+            os.chmod(os.path.join(W, 'ro'), 0o555)
+            return os.path.join(W, 'ro', plain)
+
+        def ro_dir_present():
+            _old(os.path.join(W, 'ro', plain))
+            os.chmod(os.path.join(W, 'ro'), 0o555)
+            return os.path.join(W, 'ro', plain)
+        unwritable('read-only-file', ro_file)
+        unwritable('read-only-directory-target-absent', ro_dir_absent)
+        unwritable('read-only-directory-target-present', ro_dir_present)
+    return out
+
+
+def run_target_paths(tier, seed):
+    col = h.Collector(
+        'C07.target_paths',
+        rule='target {15 spellings/names of a writable path x {absent, holding b"OLD"}; 16 targets that cannot be '
+             'written or are not paths (+3 read-only ones where the platform enforces permissions)} x documents '
+             '{clean, 2 with warnings only, 1 with a validation error, 2 with a serialisation fault; quick: 1 and 1} x warning '
+             'handling {record, error} x {XML, JSON, RDF/turtle} (thorough: + XML+local_style, YAML, RDF default) x '
+             '{odml.save, ODMLWriter.write_file, XMLWriter.write_file, RDFWriter.write_file}; '
+             'class = (target, state, document label, filter, format, entry, raised?)',
+        exhaustive=True)
+    names = ('XML', 'JSON', 'RDF/turtle') if tier == 'quick' else \
+        ('XML', 'XML+local_style', 'JSON', 'YAML', 'RDF', 'RDF/turtle')
+    cfgs = [c for c in CONFIGS if c[0] in names]
+    run = 'C07.target_paths'
+    with _scratch_as_cwd():
+        readonly = _readonly_enforced()
+        for label, backend, kwargs, ext in cfgs:
+            for tlabel, state, setup in _target_variants(ext, backend, readonly):
+                for dclass, dlabel, build in _env_docs('few'):
+                    if tier == 'quick' and dlabel in QUICK_SKIP:
+                        continue
+                    for wfilter in ('always', 'error'):
+                        for entry in _entries_for(backend, kwargs):
+                            doc = build()
+                            _clear()
+                            path = setup()
+                            before = _tree()
+                            kind, val, _rec = _call_save(entry, doc, path, backend, kwargs, wfilter)
+                            after = _tree()
+                            col.case(cls_key=(tlabel, state, dlabel, wfilter, label, entry, kind),
+                                     sample='target %s (%s), doc %s, filter %s -> %s via %s: %s'
+                                            % (tlabel, state, dlabel, wfilter, label, entry,
+                                               'raised ' + type(val).__name__ if kind == 'exc' else 'returned'))
+                            witness = {'target': tlabel, 'state': state, 'path_argument': repr(path)[:120],
+                                       'doc': dlabel, 'doc_class': dclass, 'warnings': wfilter, 'format': label,
+                                       'kwargs': kwargs, 'entry': entry,
+                                       'outcome': type(val).__name__ if kind == 'exc' else 'returned'}
+                            _judge(col, run, 'target:%s/%s' % (tlabel, state), dclass, entry,
+                                   backend, kind, val, before, after, witness, strict_exc=False)
+    return col.result()
+
+
+# ---------------------------------------------------------------------------------------------
+# run_writer_options
+# ---------------------------------------------------------------------------------------------
+
+GOOD_TEMPLATE = '<xsl:template match="odML"><html><body><xsl:value-of select="author"/></body></html></xsl:template>'
+
+
+def _option_variants():
+    """(label, backend argument, kwargs, extension)"""
+    out = []
+    for lab, val in [('True', True), ('False', False), ('"yes"', 'yes'), ('1', 1), ('None', None)]:
+        out.append(('XML local_style=' + lab, 'XML', {'local_style': val}, 'xml'))
+    templates = [('valid-template', GOOD_TEMPLATE), ('empty', ''), ('not-XSL', 'just text & < >'),
+                 ('stylesheet-path-that-does-not-exist', '/no/such/dir/style.xsl'),
+                 ('relative-stylesheet-path-that-does-not-exist', 'missing_style.xsl'),
+                 ('non-ascii', '<xsl:template match="odML">Größe 日本</xsl:template>'),
+                 ('NUL-text', '<xsl:template match="odML">a\x00b</xsl:template>'),
+                 ('lone-surrogate-text', '<xsl:template match="odML">a\ud800b</xsl:template>'),
+                 ('percent-signs', '<xsl:template match="odML">100%s %d %(x)s %</xsl:template>'),
+                 ('int', 42), ('bytes', GOOD_TEMPLATE.encode()), ('tuple', ('a', 'b')), ('list', ['a']),
+                 ('dict', {'a': 1}), ('None', None), ('str-raises-object', _StrRaises())]
+    for lab, val in templates:
+        out.append(('XML custom_template=' + lab, 'XML', {'custom_template': val}, 'xml'))
+    out.append(('XML custom_template=valid-template,local_style=True', 'XML',
+                {'custom_template': GOOD_TEMPLATE, 'local_style': True}, 'xml'))
+    out.append(('XML custom_template=lone-surrogate-text,local_style=True', 'XML',
+                {'custom_template': 'a\ud800b', 'local_style': True}, 'xml'))
+    for f in RDF_FORMATS + ['bogus', '', 'XML', 'Turtle', 'nquads', 'hext', 'longturtle', 'application/rdf+xml',
+                            'text/turtle']:
+        out.append(('RDF rdf_format=%r' % f, 'RDF', {'rdf_format': f}, 'rdf'))
+    for lab, val in [('None', None), ('int', 5), ('bytes', b'turtle'), ('list', ['turtle']), ('tuple', ('xml',))]:
+        out.append(('RDF rdf_format=' + lab, 'RDF', {'rdf_format': val}, 'rdf'))
+    for backend in ['xml', 'Xml', 'json', 'Json', 'yaml', 'yAmL', 'rdf', 'Rdf']:
+        out.append(('backend spelled %r' % backend, backend, {}, backend.lower()))
+    for backend in ['odml', 'yml', '', ' xml', 'xml ', 'XML\n', 'turtle', None, 3, b'xml']:
+        out.append(('unsupported backend %r' % (backend,), backend, {}, 'out'))
+    for backend in ['XML', 'JSON', 'YAML', 'RDF']:
+        out.append((backend + ' unknown keyword argument', backend, {'no_such_option': 1}, backend.lower()))
+        out.append((backend + ' options of the other backends', backend,
+                    {'rdf_format': 'turtle', 'local_style': True, 'custom_template': GOOD_TEMPLATE}
+                    if backend not in ('XML', 'RDF') else
+                    ({'rdf_format': 'bogus'} if backend == 'XML' else {'rdf_format': 'turtle', 'local_style': 'x',
+                                                                      'custom_template': 'a\ud800b'}),
+                    backend.lower()))
+    return out
+
+
+def _option_kind(olabel, kwargs):
+    """Stable class of an option variant (the reason why it is special, not its exact value)."""
+    if olabel.startswith('XML custom_template='):
+        val = kwargs['custom_template']
+        if not isinstance(val, str):
+            return 'custom_template:not-a-str'
+        try:
+            val.encode('utf-8')
+        except UnicodeError:
+            return 'custom_template:text-UTF-8-cannot-hold'
+        return 'custom_template:text'
+    if olabel.startswith('XML local_style='):
+        return 'local_style'
+    if olabel.startswith('RDF rdf_format='):
+        val = kwargs['rdf_format']
+        return 'rdf_format:not-a-str' if not isinstance(val, str) else \
+            'rdf_format:documented' if val in RDF_FORMATS else 'rdf_format:other-text'
+    if olabel.startswith('backend spelled'):
+        return 'backend:spelling'
+    if olabel.startswith('unsupported backend'):
+        return 'backend:unsupported'
+    return 'keyword-arguments:' + ('unknown' if 'unknown' in olabel else 'of-other-backends')
+
+
+def run_writer_options(tier, seed):
+    col = h.Collector(
+        'C07.writer_options',
+        rule='option of the writer {XML: 5 local_style values, 16 custom_template values (valid, empty, not XSL, '
+             'stylesheet paths that do not exist, non-ASCII, NUL, lone surrogate, % signs, int/bytes/tuple/list/dict/'
+             'None/object whose __str__ raises), 2 combinations; RDF: 11 documented + 9 other + 5 non-str rdf_format '
+             'values; 8 spellings of supported and 10 unsupported backend arguments; unknown and foreign keyword '
+             'arguments per backend} x documents {clean, 2 with warnings only, 1 with a validation error, 2 with a '
+             'serialisation fault; quick: clean, 1 with a warning, 1 with an error} x warning handling {record, error} x {odml.save, ODMLWriter.write_file, '
+             'XMLWriter.write_file, RDFWriter.write_file} x target {absent, b"OLD"}; '
+             'class = (option, document label, filter, entry, target, raised?)',
+        exhaustive=True)
+    run = 'C07.writer_options'
+    with _scratch_as_cwd():
+        for olabel, backend, kwargs, ext in _option_variants():
+            for dclass, dlabel, build in _env_docs('few'):
+                if tier == 'quick' and dlabel in QUICK_SKIP + ('NUL-in-property-value',):
+                    continue
+                for wfilter in ('always', 'error'):
+                    for entry in _entries_for(backend, kwargs):
+                        for target in TARGETS:
+                            doc = build()
+                            path, before = _simple_target(target, entry, ext)
+                            kind, val, _rec = _call_save(entry, doc, path, backend, kwargs, wfilter)
+                            after = _tree()
+                            col.case(cls_key=(olabel, dlabel, wfilter, entry, target, kind),
+                                     sample='option %s, doc %s, filter %s via %s, target %s: %s'
+                                            % (olabel, dlabel, wfilter, entry, target,
+                                               'raised ' + type(val).__name__ if kind == 'exc' else 'returned'))
+                            witness = {'option': olabel, 'kwargs': repr(kwargs)[:160], 'backend': repr(backend),
+                                       'doc': dlabel, 'doc_class': dclass, 'warnings': wfilter, 'entry': entry,
+                                       'target': target,
+                                       'outcome': type(val).__name__ if kind == 'exc' else 'returned'}
+                            _judge(col, run, 'option:' + _option_kind(olabel, kwargs), dclass, entry,
+                                   backend, kind, val, before, after, witness, strict_exc=False)
+    return col.result()
+
+
+# ---------------------------------------------------------------------------------------------
+# run_process_locale
+# ---------------------------------------------------------------------------------------------
+
+NON_ASCII = [('latin-1', 'Größe'), ('CJK', '日本'), ('astral', '\U0001d707V'), ('combining', 'ä')]
+LOCALE_SLOTS = ['property-value', 'document-author', 'section-definition', 'property-unit', 'property-name']
+
+
+def _locale_docs(tier):
+    texts = NON_ASCII[:2] if tier == 'quick' else NON_ASCII
+    slots = LOCALE_SLOTS[:2] if tier == 'quick' else LOCALE_SLOTS
+    out = [('ascii-text', 'no issue', _clean_doc)]
+    for tname, text in texts:
+        for slot in slots:
+            def build(slot=slot, text=text):
+                doc = _clean_doc()
+                _put(doc, slot, text)
+                return doc
+            out.append(('non-ascii-text', '%s in %s' % (tname, slot), build))
+
+    def warn_doc():
+        doc = _clean_doc()
+        odml.Section(name=NON_ASCII[0][1], parent=doc)      # type 'n.s.': a warning whose text is not ASCII
+        return doc
+    out.append(('non-ascii-text+warning', 'latin-1 section name, default type', warn_doc))
+    return out
+
+
+def _locale_child(tier, seed):
+    """Runs in the child process (see run_process_locale); prints the Collector result as JSON."""
+    real_stdout = sys.stdout
+    sys.stdout = sys.stderr
+    os.makedirs(WORK, exist_ok=True)
+    probe = os.path.join(WORK, 'probe')
+    with open(probe, 'w') as fh:
+        encoding = fh.encoding
+    os.remove(probe)
+    col = h.Collector(
+        'C07.process_locale',
+        rule='child process with LC_ALL=C and UTF-8 mode off (text files open as %s) x documents {ASCII only; '
+             'Latin-1 / CJK / astral / combining text in property value, author, section definition, unit, property '
+             'name (quick: 2 x 2); non-ASCII name with a warning} x {XML, XML+local_style, JSON, YAML, RDF default, '
+             'RDF x 11 rdf_format} x {odml.save, ODMLWriter.write_file, XMLWriter.write_file, RDFWriter.write_file} x '
+             'warning handling {record, error} x target {absent, b"OLD"}; class = (document label, format, entry, '
+             'filter, target, raised?)' % encoding,
+        exhaustive=True)
+    run = 'C07.process_locale'
+    try:
+        ascii_only = 'aä'.encode(encoding, 'replace') == b'a?'
+    except LookupError:
+        ascii_only = False
+    if ascii_only:
+        with _scratch_as_cwd():
+            for dclass, dlabel, build in _locale_docs(tier):
+                for label, backend, kwargs, ext in CONFIGS:
+                    for entry in _entries_for(backend, kwargs):
+                        for wfilter in ('always', 'error'):
+                            if wfilter == 'error' and 'warning' not in dclass and dclass != 'ascii-text':
+                                continue
+                            for target in TARGETS:
+                                doc = build()
+                                path, before = _simple_target(target, entry, ext)
+                                kind, val, _rec = _call_save(entry, doc, path, backend, kwargs, wfilter)
+                                after = _tree()
+                                col.case(cls_key=(dlabel, label, entry, wfilter, target, kind),
+                                         sample='locale encoding %s, doc %s -> %s via %s, target %s: %s'
+                                                % (encoding, dlabel, label, entry, target,
+                                                   'raised ' + type(val).__name__ if kind == 'exc' else 'returned'))
+                                witness = {'locale_encoding': encoding, 'doc': dlabel, 'format': label,
+                                           'kwargs': kwargs, 'entry': entry, 'warnings': wfilter, 'target': target,
+                                           'outcome': type(val).__name__ if kind == 'exc' else 'returned'}
+                                _judge(col, run, 'locale-encoding:ASCII/doc:' + dclass, dclass, entry, backend, kind,
+                                       val, before, after, witness, strict_exc=False)
+    res = col.result()
+    res['locale_encoding'] = encoding
+    if not ascii_only:
+        res['note'] = 'this platform did not give the child an ASCII locale encoding (%s): nothing evaluated' % encoding
+    real_stdout.write(json.dumps(res, default=repr))
+    real_stdout.flush()
+
+
+def run_process_locale(tier, seed):
+    """The locale of a process is fixed when the interpreter starts, so this dimension needs a child process."""
+    root = os.path.dirname(os.path.dirname(os.path.abspath(__file__)))
+    env = dict(os.environ)
+    for k in [k for k in env if k.startswith('LC_')] + ['LANG', 'LANGUAGE', 'PYTHONUTF8', 'PYTHONIOENCODING']:
+        env.pop(k, None)
+    env.update({'LC_ALL': 'C', 'PYTHONCOERCECLOCALE': '0', 'PYTHONUTF8': '0', 'PYTHONIOENCODING': 'utf-8',
+                'PYTHONHASHSEED': '0'})
+    code = 'import sys; sys.path.insert(0, %r); from rcc import b_C07; b_C07._locale_child(%r, %r)' % (root, tier, seed)
+    proc = subprocess.run([sys.executable, '-X', 'utf8=0', '-c', code], env=env, cwd=root,
+                          stdout=subprocess.PIPE, stderr=subprocess.PIPE, timeout=900)
+    if proc.returncode != 0:
+        raise RuntimeError('child process failed (%d): %s' % (proc.returncode, proc.stderr.decode('utf-8', 'replace')[-1500:]))
+    return json.loads(proc.stdout.decode('utf-8'))
